@@ -654,16 +654,19 @@ static void
 big_case(long idx, void *ctx)
 {
     (void)ctx;
-    /* idx: 0 many small records (26 B x 60000), 1 few large records (char8[60000] + int16, 17 records), 2 two big fields */
+    /* idx: 0 many small records (26 B x 100000), 1 few large records (char8[60000] + int16, 41 records), 2 two big fields, 3 one small field */
     int cfg[2] = {-1, (int)idx};
     mc_set_config(cfg, 2, "large transfer case %ld", idx);
     static const struct {
         int   nf;
         fld_t f[3];
         int   nrec;
-    } B[3] = {{3, {{DFNT_INT32, 1, 4}, {DFNT_FLOAT64, 2, 8}, {DFNT_INT16, 3, 2}}, 60000},
-              {2, {{DFNT_CHAR8, 60000, 1}, {DFNT_INT16, 1, 2}}, 19},
-              {2, {{DFNT_INT32, 8000, 4}, {DFNT_UINT8, 30000, 1}}, 18}};
+    } B[4] = {/* every single VSwrite / VSread call below moves more than 1 000 000 bytes (the size of the library's
+                 transfer buffer), so the chunked transfer loops run more than once */
+              {3, {{DFNT_INT32, 1, 4}, {DFNT_FLOAT64, 2, 8}, {DFNT_INT16, 3, 2}}, 100000},
+              {2, {{DFNT_CHAR8, 60000, 1}, {DFNT_INT16, 1, 2}}, 41},
+              {2, {{DFNT_INT32, 8000, 4}, {DFNT_UINT8, 30000, 1}}, 40},
+              {1, {{DFNT_INT32, 1, 4}}, 600000}};
     int nf = B[idx].nf, nrec = B[idx].nrec, rs = 0, fo[3], fs[3];
     for (int i = 0; i < nf; i++) {
         fo[i] = rs;
@@ -836,7 +839,7 @@ C07_main(const char *tier, const char *replay)
             break;
     }
     mc_round_begin("large transfers across the 1,000,000-byte buffer");
-    mc_foreach(3, big_case, NULL, 1, 300);
+    mc_foreach(4, big_case, NULL, 1, 300);
     mc_round_end();
     return 0;
 }
